@@ -3,6 +3,6 @@ CONSTANTS
   Keys = {1,2}
   Vals = {0,1,2}
   Cls <- ClsId
-  WithCmp = TRUE
+  WithCmp = FALSE
 VIEW View
 ACTION_CONSTRAINT Dump
